@@ -27,12 +27,16 @@ def _is_nan_lib(v):
     if isinstance(v, core.SymFloat): return core.mkbool(v.kind != core.FIN)
     return isinstance(v, float) and (v != v or v in (float('inf'), float('-inf')))
 
-def table(c, n, pool_cells = False):
+def table(c, n, pool_cells = False, kinds = None, strs = ('a', 'B')):
+    """kinds: per column the cell kinds; a column with kinds None holds concrete payload values"""
     from pyg_base import dictable
+    kinds = kinds or dict(a = CELL, b = CELL)
     cols = dict(a = [], b = []); floats = []
     for i in range(n):
         for k in 'ab':
-            v = V.scalar(c, '%s%d' % (k, i), CELL, pool = floats) if not pool_cells else c.pick('%s%d' % (k, i), [None, 1, 2, 'a', 'B'])
+            if pool_cells: v = c.pick('%s%d' % (k, i), [None, 1, 2, 'a', 'B'])
+            elif kinds[k] is None: v = 'row%d' % i
+            else: v = V.scalar(c, '%s%d' % (k, i), kinds[k], pool = floats, strs = list(strs))
             if isinstance(v, (float, core.SymFloat)) and v.__class__ is float: floats.append(v)
             cols[k].append(v)
     d = dictable(a = list(cols['a']), b = list(cols['b']), rid = list(range(n)))
@@ -44,12 +48,15 @@ def in_list(v, lst):
 
 def cond_value(c, name, floats):
     kind = c.pick(name + '.ckind', ['value', 'list1', 'list2', 'none', 'nan', 'regex'])
+    S2 = ['a', 'zz']
     if kind == 'value':
-        v = V.scalar(c, name + '.v', ['int', 'float', 'str'], pool = floats); return v, (lambda r: in_list(r, [v])), kind
+        v = V.scalar(c, name + '.v', ['int', 'float', 'str'], pool = floats, strs = S2)
+        if _is_nan_lib(v): return v, (lambda r: _is_nan_lib(r)), 'nan'          # a NaN (or inf) value *is* the NaN condition
+        return v, (lambda r: in_list(r, [v])), kind
     if kind == 'list1':
-        v = V.scalar(c, name + '.v', ['int', 'float', 'str'], pool = floats); return [v], (lambda r: in_list(r, [v])), kind
+        v = V.scalar(c, name + '.v', ['int', 'float', 'str'], pool = floats, strs = S2); return [v], (lambda r: in_list(r, [v])), kind
     if kind == 'list2':
-        v = V.scalar(c, name + '.v', ['int', 'float', 'str', 'none'], pool = floats); w = V.scalar(c, name + '.w', ['int', 'str'], pool = floats)
+        v = V.scalar(c, name + '.v', ['int', 'float', 'str', 'none'], pool = floats, strs = S2); w = V.scalar(c, name + '.w', ['int', 'str'], pool = floats, strs = ['B'])
         return [v, w], (lambda r: in_list(r, [v, w])), kind
     if kind == 'none': return None, (lambda r: r is None), kind
     if kind == 'nan':
@@ -70,9 +77,9 @@ def check_partition(c, d, cols, n, inc, exc, pred):
     c.check('operand-unchanged', list(d['rid']) == list(range(n)) and all(d[k][i] is cols[k][i] for k in 'ab' for i in range(n)))
     c.check('type-kept', type(inc) is type(d) and type(exc) is type(d))
 
-def h_keyword(n, two):
+def h_keyword(n, two, strs = ('a', 'B')):
     def h(c):
-        d, cols, floats = table(c, n)
+        d, cols, floats = table(c, n, kinds = dict(a = CELL, b = CELL if two else None), strs = strs)
         va, pa, ka = cond_value(c, 'ca', floats)
         if two:
             vb, pb, kb = cond_value(c, 'cb', floats)
@@ -87,7 +94,7 @@ def h_keyword(n, two):
 
 def h_dictfilter(n):
     def h(c):
-        d, cols, floats = table(c, n)
+        d, cols, floats = table(c, n, kinds = dict(a = CELL, b = None))
         va, pa, ka = cond_value(c, 'ca', floats)
         inc = d.inc(dict(a = va)); exc = d.exc(dict(a = va))
         check_partition(c, d, cols, n, inc, exc, lambda i: pa(cols['a'][i]))
@@ -99,7 +106,7 @@ CALLABLES = [('a-is-none', lambda a: a is None, lambda a, b: a is None),
              ('always', lambda: True, lambda a, b: True), ('never', lambda a, b: 0, lambda a, b: False)]
 def h_callable(n):
     def h(c):
-        d, cols, floats = table(c, n)
+        d, cols, floats = table(c, n, kinds = dict(a = ['none', 'int', 'str'], b = ['int', 'str']), strs = ('a',))
         k = c.choice('fn', len(CALLABLES)); name, f, ref = CALLABLES[k]
         inc = d.inc(f); exc = d.exc(f)
         if name == 'rid-parity-nonbool': pred = lambda i: i % 2 == 1
@@ -109,7 +116,7 @@ def h_callable(n):
 
 def h_identity(n):
     def h(c):
-        d, cols, floats = table(c, n)
+        d, cols, floats = table(c, n, kinds = dict(a = CELL, b = None))
         r = d.inc(); e = d.exc()
         c.check('inc-with-no-condition-is-identity', list(r['rid']) == list(range(n)) and list(r.keys()) == ['a', 'b', 'rid'] and all(r[k][i] is cols[k][i] for k in 'ab' for i in range(n)))
         c.check('result-is-a-new-table', r is not d)
@@ -139,15 +146,18 @@ def obligations(tier):
     kinds = ['value', 'list1', 'list2', 'none', 'nan', 'regex']
     for n in range(0, N + 1):
         for i, k in enumerate(kinds):
-            obs.append(Ob('keyword.%d.%s' % (n, k), h_keyword(n, False), setup = setup, pins = {'ca.ckind': i}, budget_s = 300 if n < 4 else 1200,
+            obs.append(Ob('keyword.%d.%s' % (n, k), h_keyword(n, False, V.STRS if k == 'regex' else ('a', 'B')), setup = setup, pins = {'ca.ckind': i}, budget_s = 300 if n < 4 else 1200,
                           desc = 'inc/exc(a=<%s>) partition a %d-row table in order, keep columns; inc idempotent' % (k, n)))
-    for n in range(0, 3 if q else 4):
+    for n in range(0, 2 if q else 3):
         for i, k in enumerate(kinds):
-            obs.append(Ob('conjunction.%d.%s' % (n, k), h_keyword(n, True), setup = setup, pins = {'ca.ckind': i}, budget_s = 400 if n < 3 else 1500,
-                          desc = 'inc/exc(a=<%s>, b=<any condition>): conjunction of two column conditions, %d rows' % (k, n)))
+            for j, k2 in enumerate(kinds):
+                if n < 1 and j: continue
+                obs.append(Ob('conjunction.%d.%s.%s' % (n, k, k2 if n >= 1 else 'any'), h_keyword(n, True, ('a', 'B', 'ab') if 'regex' in (k, k2) else ('a', 'B')), setup = setup, pins = {'ca.ckind': i, 'cb.ckind': j} if n >= 1 else {'ca.ckind': i},
+                              budget_s = 300 if n < 2 else 2400, desc = 'inc/exc(a=<%s>, b=<%s>): conjunction of two column conditions, %d rows' % (k, k2 if n >= 1 else 'any', n)))
     for n in range(0, N + 1):
         obs.append(Ob('dict-filter.%d' % n, h_dictfilter(n), setup = setup, budget_s = 400, desc = 'inc/exc(dict(a=cond)), %d rows' % n))
-        obs.append(Ob('callable.%d' % n, h_callable(n), setup = setup, budget_s = 400, desc = 'inc/exc(single callable), %d rows' % n))
+        for i, (nm, _, _) in enumerate(CALLABLES):
+            obs.append(Ob('callable.%d.%s' % (n, nm), h_callable(n), setup = setup, pins = {'fn': i}, budget_s = 400, desc = 'inc/exc(single callable %s), %d rows' % (nm, n)))
         obs.append(Ob('no-condition.%d' % n, h_identity(n), setup = setup, desc = 'inc() is the identity, %d rows' % n))
-        obs.append(Ob('find.%d' % n, h_find(n), setup = setup, budget_s = 400, desc = 'find_b(a=v) returns the unique value or raises, %d rows' % n))
+        if n <= 2 or not q: obs.append(Ob('find.%d' % n, h_find(n), setup = setup, budget_s = 300 if n < 3 else 2400, desc = 'find_b(a=v) returns the unique value or raises, %d rows' % n))
     return obs
